@@ -11,6 +11,7 @@ import (
 	"go/token"
 	"go/types"
 	"os"
+	"regexp/syntax"
 	"strings"
 
 	"golang.org/x/tools/go/ssa"
@@ -162,6 +163,14 @@ func ruleConstIdx(c *Ctx, r *Rep) {
 					ln, ok = lenBoundFromGuards(ia.X, b)
 				}
 				if !ok {
+					// bytes a library call handed back (a decoding, a file): their length is whatever the input was, so a constant
+					// index needs a test (or a chain of constructions) that establishes it
+					if _, isSlice := ia.X.Type().Underlying().(*types.Slice); isSlice && fromLibraryBytes(c, ia.X) {
+						n++
+						have := minLenOf(c, ia.X, b, 0)
+						r.Check(have > k.Int64(), sprintf("index|%s#%d", c.FuncKey(fn), n), c.Pos(ia.Pos()),
+							sprintf("a length of at least %d established on the way", k.Int64()+1), sprintf("established: at least %d", have))
+					}
 					continue
 				}
 				n++
@@ -2012,8 +2021,16 @@ func lenLowerBound(c *Ctx, s ssa.Value, b *ssa.BasicBlock) int64 {
 				}
 			}
 			if truth && strings.HasSuffix(name, "regexp.Regexp).MatchString") && len(x.Call.Args) == 2 && same(x.Call.Args[1]) {
-				if best < 1 {
-					best = 1 // a match of the patterns used here consumes at least one character
+				n := int64(0)
+				if d := c.describe(c.evaluator(), x.Call.Args[0], 0); d != nil && d.Kind == "call" && len(d.Args) == 1 {
+					if pat, ok := d.Args[0].Str(); ok {
+						if m := regexpMinLen(pat); m > 0 {
+							n = m
+						}
+					}
+				}
+				if n > best {
+					best = n
 				}
 			}
 		}
@@ -2151,4 +2168,111 @@ func ruleImportParts(c *Ctx, r *Rep) {
 			r.Bad("like-named|"+f, c.FnPos(host), "artifact."+f+" <- file."+f, "never stored")
 		}
 	}
+}
+
+// minLenOf: a lower bound on len(v) in block b, from the guards on the way and from how v was made.
+func minLenOf(c *Ctx, v ssa.Value, b *ssa.BasicBlock, depth int) int64 {
+	if depth > 5 {
+		return 0
+	}
+	best := lenLowerBound(c, v, b)
+	if n, ok := constLen(v); ok && n > best {
+		best = n
+	}
+	switch x := v.(type) {
+	case *ssa.Slice:
+		lo := int64(0)
+		if x.Low != nil {
+			k, ok := x.Low.(*ssa.Const)
+			if !ok || k.Value == nil {
+				return best
+			}
+			lo = k.Int64()
+		}
+		if x.High == nil {
+			if n := minLenOf(c, x.X, b, depth+1) - lo; n > best {
+				best = n
+			}
+		}
+	case *ssa.Extract:
+		if call, ok := x.Tuple.(*ssa.Call); ok && x.Index == 0 {
+			switch calleeFullName(call) {
+			case "encoding/hex.DecodeString":
+				// a successful decode has half the (even) length of its input
+				if n := (minLenOf(c, call.Call.Args[0], call.Block(), depth+1) + 1) / 2; n > best {
+					best = n
+				}
+			}
+		}
+	case *ssa.Convert:
+		if n := minLenOf(c, x.X, b, depth+1); n > best {
+			best = n
+		}
+	}
+	return best
+}
+
+// regexpMinLen: the length of the shortest string a constant pattern matches (-1: unknown).
+func regexpMinLen(pattern string) int64 {
+	re, err := syntax.Parse(pattern, syntax.Perl)
+	if err != nil {
+		return -1
+	}
+	var min func(r *syntax.Regexp) int64
+	min = func(r *syntax.Regexp) int64 {
+		switch r.Op {
+		case syntax.OpLiteral:
+			return int64(len(r.Rune))
+		case syntax.OpCharClass, syntax.OpAnyChar, syntax.OpAnyCharNotNL:
+			return 1
+		case syntax.OpCapture:
+			return min(r.Sub[0])
+		case syntax.OpConcat:
+			n := int64(0)
+			for _, s := range r.Sub {
+				n += min(s)
+			}
+			return n
+		case syntax.OpAlternate:
+			n := int64(1 << 30)
+			for _, s := range r.Sub {
+				if m := min(s); m < n {
+					n = m
+				}
+			}
+			return n
+		case syntax.OpPlus:
+			return min(r.Sub[0])
+		case syntax.OpRepeat:
+			return int64(r.Min) * min(r.Sub[0])
+		}
+		return 0 // star, quest, anchors, empty
+	}
+	return min(re)
+}
+
+// fromLibraryBytes: v is the []byte / string result of a call into a library (decoded or read data).
+func fromLibraryBytes(c *Ctx, v ssa.Value) bool {
+	var call *ssa.Call
+	switch x := v.(type) {
+	case *ssa.Extract:
+		call, _ = x.Tuple.(*ssa.Call)
+	case *ssa.Call:
+		call = x
+	}
+	if call == nil {
+		return false
+	}
+	if f := call.Call.StaticCallee(); f != nil && c.InModule(f) {
+		return false
+	}
+	if _, isBuiltin := call.Call.Value.(*ssa.Builtin); isBuiltin {
+		return false
+	}
+	switch t := v.Type().Underlying().(type) {
+	case *types.Slice:
+		b, ok := t.Elem().Underlying().(*types.Basic)
+		return ok && b.Kind() == types.Byte
+	}
+	return false
 }
